@@ -25,6 +25,42 @@ class HardInterrupt(BaseException):
         self.task = task
 
 
+def _kind(base, label):
+    """an interrupt class derived from `base` that remembers the sub-cube it was raised at"""
+    def __init__(self, task):
+        base.__init__(self, "%s interrupt at sub-cube %d" % (label, task))
+        self.task = task
+    return type(label.title().replace("-", "") + "Interrupt", (base,), {"__init__": __init__})
+
+
+import asyncio as _asyncio  # noqa: E402
+# what a caller's callback may raise: the property says "that exception", whatever its class. Classes that the
+# interpreter or the standard library treat specially are the interesting ones: StopIteration ends list(map(...))
+# and for-loops silently, GeneratorExit/StopIteration are transformed inside generators, KeyboardInterrupt /
+# CancelledError / SystemExit are not Exceptions (a pool worker dies of them), and KeyError / ZeroDivisionError /
+# MemoryError / ValueError are classes the library itself catches in places.
+KINDS = {
+    "exception": Interrupt, "base": HardInterrupt,
+    "stop": _kind(StopIteration, "stop"), "genexit": _kind(GeneratorExit, "genexit"),
+    "kbd": _kind(KeyboardInterrupt, "kbd"), "cancel": _kind(_asyncio.CancelledError, "cancel"),
+    "sysexit": _kind(SystemExit, "sysexit"), "lookup": _kind(KeyError, "lookup"),
+    "arith": _kind(ZeroDivisionError, "arith"), "memory": _kind(MemoryError, "memory"),
+    "value": _kind(ValueError, "value"), "type": _kind(TypeError, "type"), "index": _kind(IndexError, "index"),
+    "attr": _kind(AttributeError, "attr"), "runtime": _kind(RuntimeError, "runtime"),
+}
+SOFT_KINDS = [k for k, c in KINDS.items() if issubclass(c, Exception)]
+HARD_KINDS = [k for k, c in KINDS.items() if not issubclass(c, Exception)]
+
+
+def kind_of(hard):
+    """`hard` may be False/True (the two original classes) or one of the KINDS names"""
+    if hard is True:
+        return "base"
+    if not hard:
+        return "exception"
+    return hard
+
+
 def make_funcs(kind, case, rnd, names):
     """function objects (ffuncs for the index cube, xfuncs for the array cube) for the aggregates `names`"""
     if kind == "ccube":
@@ -157,7 +193,7 @@ class PoolRun:
             raised = t in faults
             sched.boundary(w, "check", w, t, raised) if (mode == "pool" and not real_pool) else sched.log.append(("check", w, t, raised))
             if raised:
-                raise (HardInterrupt if hard else Interrupt)(t)
+                raise KINDS[kind_of(hard)](t)
 
         def logfill():
             w, t = where()
@@ -180,16 +216,14 @@ class PoolRun:
                     outs = cube.calculate(funcs)
             else:
                 outs = cube.calculate(funcs)
-        except (Interrupt, HardInterrupt) as e:
-            outcome = "raised"
-            tagok = e.task in faults and isinstance(e, HardInterrupt if hard else Interrupt)
         except sc.PoolHang:
             outcome = "hung"
             tagok = False
-        except Exception as e:  # noqa
+        except BaseException as e:  # noqa
             outcome = "raised"
-            tagok = False
-            self.last_exc = "%s: %s" % (type(e).__name__, e)
+            tagok = type(e) is KINDS[kind_of(hard)] and getattr(e, "task", None) in faults
+            if not tagok:
+                self.last_exc = "%s: %s" % (type(e).__name__, e)
         finally:
             sched.uninstall()
             cube.check_interrupt = None
